@@ -18,7 +18,7 @@ use super::worlds::ec_hex;
 fn now_ts() -> i64 { chrono::Utc::now().timestamp() }
 
 /// The marker VRP of (ca, version).
-fn marker(ca: usize, version: usize) -> Obj {
+pub fn marker(ca: usize, version: usize) -> Obj {
     let bits = (((10u32 << 24) | ((ca as u32 & 0xff) << 16) | ((version as u32 & 0xff) << 8)) as u128) << 96;
     Obj { name: "marker.roa".into(), kind: ObjKind::Roa { asn: block_as(ca).0 + 50, prefixes: vec![Pfx { v4: true, bits, len: 24, max: None }] },
         serial: 20_000 + version as u64, nb: 0, na: 0, fault: None, salt: 0 }
